@@ -22,6 +22,7 @@ EXPLANATION = (
     "(7) FRESHLIST: padding the visible slice never appends to the shard list of the wrapped widget's cached canvas (a taller first view would otherwise inflate the content the next, "
     "lower view scrolls over); (5) thumb geometry is computed only from queries made with the size the wrapped widget is drawn at (ow_size), never the ScrollBar's own size."
     " Added after seed round 3: every return of Scrollable.render comes after _adjust_trim_top() (the position reported is 0 when the content fits); a constant top part is stored only under a test that the thumb leaves room; (8) FOCUS-FWD on the scrolling protocol (ListBox.get_scrollpos -> calculate_visible); (9) ScrollBar remembers for keypress()/mouse_event() exactly the size handed to the wrapped widget's render()."
+    ' Round 4: (10) ListBox.get_first_visible_pos returns a count obtained by walking get_prev(), never a walker position, and positions are never tested for being integers; (11) Scrollable.render returns the untrimmed canvas only when it fits in both directions.'
 )
 NOT_DECIDED = "0 <= position <= total - height after every history as a value statement, thumb monotonicity, rounding of the thumb, wheel handling, relative-scroll estimates."
 ASSUMPTIONS = []
